@@ -162,6 +162,10 @@ pub fn build(id: &str, tier: &str, seed: u64, threads: usize) -> Option<Plan> {
                 }
                 fam_strays(b, &mut cases);
                 fam_send_fail(b, &mut cases);
+                if b.spec.nblocks() <= 12 {
+                    // a whole window (or its ACK) lost three and four times in a row, then the link recovers
+                    fam_rfold(b, &[3, 4], &mut cases);
+                }
                 fam_random(b, &mut rng, if q { 4 } else { 500 }, 6, &mut cases);
                 if !q && b.spec.w <= 4 && b.spec.b <= 512 && b.spec.nblocks() <= 2 * b.spec.w as u64 + 1 {
                     fam_pairs(b, false, 1, &mut cases);
@@ -236,6 +240,9 @@ pub fn build(id: &str, tier: &str, seed: u64, threads: usize) -> Option<Plan> {
                 fam_single(b, false, 2, &mut cases);
                 fam_strays(b, &mut cases);
                 fam_send_fail(b, &mut cases);
+                if b.spec.b == 8 && b.spec.w >= 2 && b.spec.w <= 4 && b.spec.nblocks() <= 9 {
+                    fam_transient_write(b, &mut cases);
+                }
                 fam_pre_existing(b, &mut cases);
                 fam_random(b, &mut rng, if q { 4 } else { 500 }, 6, &mut cases);
                 if !q && b.spec.w <= 4 && b.spec.b <= 512 && b.spec.nblocks() <= 2 * b.spec.w as u64 + 1 {
